@@ -5,7 +5,7 @@ From Coq Require Import List ZArith NArith Bool String.
 From Lib Require Import ExprSyntax.
 From Gen Require Import Expr.
 From Model Require Import Expr.
-From Proofs Require Import ExprChar ExprParse ExprEval.
+From Proofs Require Import ExprChar ExprParse ExprEval ExprLex.
 Import ListNotations.
 Open Scope Z_scope.
 
@@ -25,28 +25,24 @@ Theorem C03_render_parse :
     parse_rendered pt (render d n) = Parsed (denote n).
 Proof. exact (@render_parse_any_table). Qed.
 
-(* With IN (subquery) nodes the full statement is false of the unchanged code
-   (open finding insubquery_item_parenthesised): *)
-Definition C03_render_parse_full : Prop :=
+(* The same at full strength for the standard table (OR < AND < NOT < comparison,
+   IS, IN < + - < * / %), IN (subquery) / NOT IN (subquery) nodes included.  (Until
+   cc273ef this statement was refuted by  (n1 < 2) == IN(n0 + 1, subquery) ; the
+   witness is kept below as a regression example.) *)
+Theorem C03_render_parse_full :
   forall (d : dialect) (n : node),
     wt n = true -> parse_rendered std_table (render d n) = Parsed (denote n).
-Theorem C03_render_parse_refuted : ~ C03_render_parse_full.
-Proof. exact (@render_parse_full_refuted). Qed.
-(* the captured parse selects other rows *)
-Theorem C03_render_parse_refuted_rows :
-  exists d n E s,
-    wt_filter n = true /\ parse_rendered std_table (render d n) = Parsed s /\
-    selected (evaln E n) = true /\ selected (eval3 E s) = false.
-Proof. exact (@captured_selects_other_rows). Qed.
-(* ... and it holds under the guard that excludes exactly the trigger class: a
-   comparison whose right operand is an IN-subquery whose item's text starts
-   with "(" *)
-Theorem C03_render_parse_partial :
-  forall (d : dialect) (n : node),
-    wt n = true -> no_captured_insub d n = true ->
-    parse_rendered std_table (render d n) = Parsed (denote n).
-Proof. exact (@render_parse_guarded). Qed.
-(* the same for an arbitrary table, with the table-relative side condition *)
+Proof. exact (@render_parse_full). Qed.
+(* With subqueries one table-relative condition remains for ARBITRARY tables:
+   "NOT item IN (...)" is rendered without parentheses around the IN, so NOT must
+   bind no tighter than IN -- true of the standard table and of every dialect. *)
+Theorem C03_render_parse_tables :
+  forall (pt : ptable) (d : dialect) (n : node),
+    Nat.leb (p_not pt) (p_in pt) = true -> wt n = true ->
+    parse_rendered pt (render d n) = Parsed (denote n).
+Proof. exact (@render_parse_tables). Qed.
+(* ... or, tree by tree, `safe pt d n` (no NOT directly over an unparenthesised
+   IN-subquery unless the table has NOT <= IN) *)
 Theorem C03_render_parse_safe :
   forall (pt : ptable) (d : dialect) (n : node),
     wt n = true -> safe pt d n = true ->
@@ -68,6 +64,12 @@ Theorem C03_filter :
     exists s, parse_rendered pt (render d n) = Parsed s /\
               keep envof (fun E => eval3 E s) rows = keep envof (fun E => evaln E n) rows.
 Proof. exact (@filter_same). Qed.
+Theorem C03_filter_std :
+  forall (R : Type) (d : dialect) (n : node) (envof : R -> env) (rows : list R),
+    wt n = true ->
+    exists s, parse_rendered std_table (render d n) = Parsed s /\
+              keep envof (fun E => eval3 E s) rows = keep envof (fun E => evaln E n) rows.
+Proof. exact (@filter_same_std). Qed.
 
 (* ---------------------------------------------------------------- == None *)
 Theorem C03_none_is_null :
@@ -87,6 +89,11 @@ Theorem C03_never_eq_null :
     wt n = true -> safe pt d n = true -> no_eq_none n = true ->
     exists s, parse_rendered pt (render d n) = Parsed s /\ no_eq_null s = true.
 Proof. exact (@none_never_eq_null). Qed.
+Theorem C03_never_eq_null_std :
+  forall (d : dialect) (n : node),
+    wt n = true -> no_eq_none n = true ->
+    exists s, parse_rendered std_table (render d n) = Parsed s /\ no_eq_null s = true.
+Proof. exact (@none_never_eq_null_std). Qed.
 
 (* ---------------------------------------------------------------- n-ary AND / OR, NOT IN, empty IN *)
 Theorem C03_nary :
@@ -146,6 +153,28 @@ Proof.
          (conj (gen_IN_char x y) (conj (gen_NOTIN_char x y) (conj (gen_ISNULL_char x) (gen_ISNOTNULL_char x))))))).
 Qed.
 
+(* ---------------------------------------------------------------- down to the characters *)
+(* The reference lexer (maximal munch; spaces, ( ) , operators, <= >= <>, quoted
+   strings with doubled quotes, digit runs, words looked up in the table of the
+   schema's word-like tokens) reads the TEXT of any lexable token sequence --
+   printed with the renderer's uniform spacing, a negative constant as "-5" --
+   back into exactly the SQL tokens.  LFuel / LErr are distinct outcomes. *)
+Theorem C03_lex_show :
+  forall (words : list tok) (ts : list tok),
+    words_ok words = true -> forallb (lexable words) ts = true ->
+    lex words (show ts) = LOk (sql_tokens ts).
+Proof. exact (@lex_show_top). Qed.
+(* hence, for every schema whose column names are words (letter first, no two
+   alike, none a keyword), every precedence table, dialect and well-typed
+   subquery-free tree over these columns: the text, lexed and parsed, is the
+   expression the tree stands for *)
+Theorem C03_text_parse :
+  forall (pt : ptable) (cols : list col) (d : dialect) (n : node),
+    words_ok (schema_words cols) = true ->
+    wt n = true -> no_subquery n = true -> cols_in cols n = true ->
+    exists l, lex (schema_words cols) (show (render d n)) = LOk l /\ parse_sql pt l = Parsed (denote n).
+Proof. exact (@text_parses). Qed.
+
 (* ---------------------------------------------------------------- non-vacuity *)
 Definition n0 := NField (Col TyNum 0).
 Definition n1 := NField (Col TyNum 1).
@@ -187,6 +216,17 @@ Example C03_parser_is_precedence_aware :
               (SBin BAnd (SCol (Col TyBool 1))
                  (SIsNull false (SBin BEq (SCol (Col TyNum 0)) (SNeg (SNum 1)))))).
 Proof. vm_compute. auto. Qed.
+Example C03_harness_schema_ok : words_ok (schema_words harness_cols) = true /\ cols_in harness_cols ex1 = true.
+Proof. vm_compute. auto. Qed.
+Example C03_ex1_text_lexes :
+  lex (schema_words harness_cols) (show (render Sqlite ex1)) = LOk (sql_tokens (render Sqlite ex1)).
+Proof. vm_compute. reflexivity. Qed.
+(* the lexer is not the identity: without the space a double minus would read differently *)
+Example C03_lexer_sees_characters :
+  lex (schema_words harness_cols) (codes "- -5"%string) = LOk [TOp BSub; TOp BSub; TNum 5] /\
+  lex (schema_words harness_cols) (codes "c03t.n0<=-5"%string) = LOk [TCol (Col TyNum 0); TOp BLe; TOp BSub; TNum 5] /\
+  lex (schema_words harness_cols) (codes "NOTc03t.b0"%string) = LErr.
+Proof. vm_compute. auto. Qed.
 (* three-valued logic at work: n1 NOT IN (1, NULL, -3) is never TRUE *)
 Definition env1 (v : val) : env := {| e_col := fun c => match c with Col TyNum 1%N => v | _ => VNull end; e_sub := fun _ => [] |}.
 Example C03_notin_null :
@@ -194,29 +234,39 @@ Example C03_notin_null :
   evaln (env1 (VInt 1)) (b_NOTIN n1 (NList [AInt 1; ANone; AInt (-3)])) = VInt 0 /\
   evaln (env1 VNull) (b_NOTIN n1 (NList [])) = VInt 1.
 Proof. vm_compute. auto. Qed.
-(* the guard of the partial theorem admits IN-subqueries in every other position *)
+(* IN-subqueries in every position *)
 Definition ex2 : node :=
   b_AND [b_IN (py_binop PAdd n0 (NAtom (AInt 1))) (NSelect 0);
          py_binop PEq (b_NOTIN n1 (NSelect 1)) (py_binop PLt n1 (NAtom (AInt 2)));
+         py_binop PGe (py_binop PLt n1 (NAtom (AInt 2))) (b_NOTIN (py_binop PMul n0 n1) (NSelect 1));
          b_NOT (b_IN (py_unop UNeg n0) (NSelect 0))].
-Example C03_ex2_hyps : wt ex2 = true /\ no_captured_insub Sqlite ex2 = true /\ no_subquery ex2 = false.
+Example C03_ex2_hyps : wt ex2 = true /\ no_subquery ex2 = false.
 Proof. vm_compute. auto. Qed.
 Example C03_ex2_parses : parse_rendered std_table (render Sqlite ex2) = Parsed (denote ex2).
 Proof. vm_compute. reflexivity. Qed.
-Example C03_witness_is_guarded_out :
-  wt witness_captured = true /\ no_captured_insub Sqlite witness_captured = false.
+(* regression: the witness of the fixed finding insubquery_item_parenthesised *)
+Example C03_witness_text :
+  show (render Sqlite witness_captured) =
+  codes "(((c03t.n1) < (2)) = (((c03t.n0) + (1)) IN (SELECT c03u0.v FROM c03u0)))"%string.
+Proof. vm_compute. reflexivity. Qed.
+Example C03_witness_now_right :
+  wt_filter witness_captured = true /\
+  parse_rendered std_table (render Sqlite witness_captured) = Parsed (denote witness_captured) /\
+  selected (evaln witness_env witness_captured) = true /\
+  selected (eval3 witness_env (denote witness_captured)) = true.
 Proof. vm_compute. auto. Qed.
 
 Print Assumptions C03_render_parse.
-Print Assumptions C03_render_parse_refuted.
-Print Assumptions C03_render_parse_refuted_rows.
-Print Assumptions C03_render_parse_partial.
+Print Assumptions C03_render_parse_full.
+Print Assumptions C03_render_parse_tables.
 Print Assumptions C03_render_parse_safe.
 Print Assumptions C03_eval.
 Print Assumptions C03_filter.
+Print Assumptions C03_filter_std.
 Print Assumptions C03_none_is_null.
 Print Assumptions C03_operators_never_eq_none.
 Print Assumptions C03_never_eq_null.
+Print Assumptions C03_never_eq_null_std.
 Print Assumptions C03_nary.
 Print Assumptions C03_nary_and_meaning.
 Print Assumptions C03_nary_or_meaning.
@@ -225,6 +275,8 @@ Print Assumptions C03_notin.
 Print Assumptions C03_empty_in.
 Print Assumptions C03_operand_order.
 Print Assumptions C03_unary.
+Print Assumptions C03_lex_show.
+Print Assumptions C03_text_parse.
 Print Assumptions C03_generated_renderer.
 Print Assumptions C03_generated_operators.
 Print Assumptions C03_generated_functions.
